@@ -56,7 +56,7 @@ Proof.
   - exact (confirmed_frames_use_delivered_inputs predict Hi Hz).
 Qed.
 
-(* Local players, call by call (the invariants QS, JI, TI hold in every reachable state -
+(* Local players, call by call (JI1 w p g = 1 <= w /\ JI w p g; the invariants QS, JI1, TI hold in every reachable state -
    SessionTimeline.run_timeline): an operation inside the space succeeds, re-establishes the invariants
    and changes the held histories exactly as [op_hist] says: add_local_input and gossip change none; an
    arriving remote input is appended to that player's history; advance_frame appends to the history of a
@@ -67,8 +67,8 @@ Qed.
 Theorem C01_held_inputs_step :
   forall (predict : Z -> Z), (forall x, predict (predict x) = predict x) -> predict 0 = 0 ->
   forall (p : p2p) (gs : list ghost) (g : game) (w d : Z) (o : sop),
-  QS w d p gs -> JI w p g -> TI predict p gs (g_hist g) -> op_ok p o = true ->
-  exists s gs' g', sstep predict p o = Ok s /\ QS w d (sr_state s) gs' /\ JI w (sr_state s) g' /\
+  QS w d p gs -> JI1 w p g -> TI predict p gs (g_hist g) -> op_ok p o = true ->
+  exists s gs' g', sstep predict p o = Ok s /\ QS w d (sr_state s) gs' /\ JI1 w (sr_state s) g' /\
     TI predict (sr_state s) gs' (g_hist g') /\ op_hist d p o gs gs'.
 Proof. exact held_inputs_step. Qed.
 
